@@ -62,10 +62,38 @@ static Schema& schema(bool second)
 }
 
 // ---------------------------------------------------------------------------- static tables
+static std::string trait_query(const FieldTraits& fp, unsigned lo, unsigned hi);
+
 static std::string trait_query(Schema& sc, size_t idx, unsigned lo, unsigned hi)
 {
 	if (idx >= sc.tables.size()) return "BAD-CASE";
-	const FieldTraits& fp(*sc.tables[idx]);
+	return trait_query(*sc.tables[idx], lo, hi);
+}
+
+// a synthetic trait table built with the real classes: FieldTrait array -> FieldTrait_Hash_Array ->
+// FieldTraits (hash-array constructor of the presence set), exactly as a generated message class does
+static std::string synthetic_trait_query(const std::string& tab, unsigned lo, unsigned hi)
+{
+	std::vector<FieldTrait> v;
+	for (const std::string& e : split(tab, ','))
+	{
+		if (e.empty()) continue;
+		const std::vector<std::string> f(split(e, ':'));
+		if (f.size() != 4) return "BAD-CASE";
+		v.push_back(FieldTrait(static_cast<unsigned short>(strtoul(f[0].c_str(), 0, 10)), FieldTrait::ft_int,
+			static_cast<unsigned short>(strtoul(f[1].c_str(), 0, 10)), static_cast<unsigned short>(strtoul(f[2].c_str(), 0, 10)),
+			static_cast<unsigned short>(strtoul(f[3].c_str(), 0, 10))));
+	}
+	if (v.empty()) return "BAD-CASE";
+	std::unique_ptr<FieldTrait[]> arr(new FieldTrait[v.size()]);	// exactly sized heap block
+	for (size_t j(0); j < v.size(); ++j) memcpy(&arr[j], &v[j], sizeof(FieldTrait));
+	const FieldTrait_Hash_Array ftha(arr.get(), v.size());
+	const FieldTraits fp(static_cast<const FieldTrait *>(arr.get()), v.size(), &ftha);
+	return trait_query(fp, lo, hi);
+}
+
+static std::string trait_query(const FieldTraits& fp, unsigned lo, unsigned hi)
+{
 	std::ostringstream os;
 	os << "T=";
 	const Presence& pr(fp.get_presence());
@@ -348,6 +376,8 @@ static std::string do_line(const std::string& line)
 		return presorted<Presence, FieldTrait, unsigned short>(w, mk_ft, true);
 	}
 	if (op == "PG") return presorted<GSet, GElem, short>(w, mk_ge, false);
+	if (op == "TS" && w.size() == 4)
+		return synthetic_trait_query(w[1], strtoul(w[2].c_str(), 0, 10), strtoul(w[3].c_str(), 0, 10));
 	Schema& sc(schema(second));
 	if (op == "T" && w.size() == 4)
 		return trait_query(sc, strtoul(w[1].c_str(), 0, 10), strtoul(w[2].c_str(), 0, 10), strtoul(w[3].c_str(), 0, 10));
